@@ -73,7 +73,7 @@ type c16Scen struct {
 	Noise    int         `json:"noise_round_trips_before,omitempty"` // the long-lived server: so many small round trips with header spellings of their own come first
 }
 
-var c16Alphabet = []rune("aZ09 _-.,;:!?/\\\"'<>&{}[]()=+*#@\t\nàéîõüßñçøåΩλπЖяשלוםمرحبا你好世界日本語한국어😀🚀𝔘  �퟿")
+var c16Alphabet = []rune("\ufeffaZ09 _-.,;:!?/\\\"'<>&{}[]()=+*#@\t\nàéîõüßñçøåΩλπЖяשלוםمرحبا你好世界日本語한국어😀🚀𝔘  �퟿")
 
 func c16String(x *uint64, n int) string {
 	var sb strings.Builder
